@@ -333,3 +333,41 @@ func VerifC15_NatsOutage() {
 	verifAssert(tr.Close() == nil, "second Close")
 	verifReach("end")
 }
+
+func init() {
+	verifHarnesses["VerifC15_FailedCloseThenFailure"] = VerifC15_FailedCloseThenFailure
+}
+
+// A Close whose underlying Close fails leaves the transport open (and says so); the
+// NEXT real failure of the stream on that connection is then detected, published
+// exactly once and the transport ends closed - a failed Close must not leave anything
+// behind that makes a later failure look like a requested close.
+func VerifC15_FailedCloseThenFailure() {
+	pipe := newVerifPipe()
+	ft := NewAdapterTransport(pipe).(*fAdapterTransport)
+	mon := &verifMonitor{events: make(chan string, 8)}
+	if verifParam() == 1 {
+		ft.SetMonitor(mon)
+	}
+	verifAssert(ft.Open() == nil, "open")
+	closed := ft.Closed()
+	pipe.failClose = true
+	verifAssert(ft.Close() != nil, "a Close whose underlying Close fails reports the error")
+	verifAssert(ft.IsOpen(), "and the transport is still open")
+	pipe.failClose = false
+	// now the stream really breaks
+	cause := errors.New("verif: connection reset")
+	if verifChoice(2) == 0 {
+		pipe.hangUp(cause)
+	} else {
+		pipe.hangUp(nil) // EOF
+	}
+	got, ok := <-closed // an undetected failure is a deadlock here
+	verifAssert(ok && got != nil, "the stream failure is published with a non-nil cause")
+	if verifParam() == 1 {
+		verifAssert(<-mon.events == "unclean", "and the monitor is told about the unclean close")
+	} else {
+		verifAssert(!ft.IsOpen(), "the transport ends closed")
+	}
+	verifReach("end")
+}
